@@ -9,7 +9,7 @@ from typing import Any
 
 from harness import c02_util as U
 from harness.common import VERIF, Ck, coq_list, coq_str
-from translate import c02_hstring, c02_tables, c03_basetok, c03_errfmt, c03_kvparse
+from translate import c02_hstring, c02_tables, c03_basetok, c03_errfmt, c03_kvparse, c03_nextchar
 
 MANIFEST = dict(
     technique='Rocq proof (generic chunked-reader = flat-reader simulation for every reader program; totality, progress, '
@@ -1518,7 +1518,129 @@ def search(ck: Ck, escalate: bool) -> None:
     basetok_search(ck, big)
     errtext_oracle(ck)
     premade_oracle(ck)
+    source_kind_oracle(ck)
     ck.sample({'oracle_example': {'text': 'a\r\n/*x*/b', 'chunks': ['a\r', '', '\n/*x*', '/b'], 'check': 'same trace as the single string'}})
+
+
+# ------------------------------------------------------------------------------------------------ the edge of the domain: what the chunk source may be
+SOURCE_PREFIXES = ['', '"a" "b"\n', '"a"\r', '"unterminated', '"esc\\', '// comment', '/* star', '[flag', '(par\n', 'bare', '#dir', '{ "k" "v" }\n']
+BAD_ITEMS = ['bytes', 'int', 'None', 'list', 'decode-error', 'runtime-error']
+
+
+def _bad_source(prefix: str, item: str, cut: bool):
+    """A chunk iterator that delivers `prefix` (whole, or one character per chunk with an empty chunk in between) and then
+    misbehaves: a bytes / non-str chunk, or it raises UnicodeDecodeError (a file opened with the wrong encoding) / RuntimeError."""
+    chunks = ([c for ch in prefix for c in (ch, '')] if cut else [prefix])
+    yield from chunks
+    if item == 'bytes':
+        yield b'more'
+    elif item == 'int':
+        yield 5
+    elif item == 'None':
+        yield None
+    elif item == 'list':
+        yield ['x']
+    elif item == 'decode-error':
+        raise UnicodeDecodeError('utf-8', b'\xff', 0, 1, 'invalid start byte')
+    else:
+        raise RuntimeError('the iterator failed')
+    yield '"never reached"'
+
+
+@U.bounded('hang: no result within the time limit')
+def source_kind_case(prefix: str, item: str, cut: bool, bits: int, via_kv: bool) -> str | None:
+    """What the property allows at the edge of its domain ("any text" = str chunks):
+    * a bytes or other non-str chunk: ValueError when the chunk is reached (documented; such a source is not a text and is
+      outside the property), never a half-made token;
+    * an iterator raising UnicodeDecodeError: the tokenizer's own error type (TokenSyntaxError; KeyValError through
+      Keyvalues.parse) with the message 'Could not decode file!', the current line number and the decode error as __cause__ -
+      "TokenSyntaxError and nothing else" covers files in the wrong encoding;
+    * any other exception of the iterator is the caller's and propagates unchanged;
+    * in every case the tokens delivered before are a prefix of the tokens of the text delivered so far."""
+    from srctools.keyvalues import KeyValError, Keyvalues
+    from srctools.tokenizer import Token, Tokenizer, TokenSyntaxError
+    opts = U.opts_of_bits(bits)
+    if via_kv:
+        try:
+            Keyvalues.parse(_bad_source(prefix, item, cut), allow_escapes=opts['allow_escapes'])
+            return 'no exception'
+        except KeyValError as e:
+            if item == 'decode-error' and e.mess == 'Could not decode file!' and not isinstance(e.__cause__, UnicodeDecodeError):
+                return 'KeyValError without the UnicodeDecodeError as __cause__'
+            return None               # a syntax error of the prefix may come first
+        except ValueError as e:
+            return None if item in ('bytes', 'int', 'None', 'list') and not isinstance(e, UnicodeDecodeError) else f'{type(e).__name__} escaped'
+        except RuntimeError:
+            return None if item == 'runtime-error' else 'RuntimeError escaped'
+        except BaseException as e:  # noqa: BLE001
+            return f'{type(e).__name__} escaped'
+    try:
+        want = []
+        for tv in Tokenizer(prefix, None, **opts):
+            want.append(tv)
+    except TokenSyntaxError:
+        pass
+    tk = Tokenizer(_bad_source(prefix, item, cut), None, **opts)
+    got = []
+    try:
+        for _ in range(len(prefix) + 3):
+            tv = tk()
+            if tv[0] is Token.EOF:
+                return 'EOF although the source misbehaved'
+            got.append(tv)
+        return 'no exception'
+    except TokenSyntaxError as e:
+        if got != want[:len(got)]:
+            return 'tokens before the error differ from the tokens of the text'
+        if e.mess == 'Could not decode file!':
+            if item != 'decode-error':
+                return 'decode error reported for another failure'
+            if not isinstance(e.__cause__, UnicodeDecodeError) or e.line_num != tk.line_num or type(e) is not TokenSyntaxError:
+                return 'decode error without cause / with the wrong line or type'
+        return None                   # a syntax error of the prefix may come first (e.g. a line break inside [flag)
+    except ValueError as e:
+        if isinstance(e, UnicodeDecodeError):
+            return 'UnicodeDecodeError escaped'
+        if item not in ('bytes', 'int', 'None', 'list'):
+            return f'ValueError for {item}'
+        return None if got == want[:len(got)] else 'tokens before the ValueError differ from the tokens of the text'
+    except RuntimeError:
+        return None if item == 'runtime-error' and got == want[:len(got)] else 'RuntimeError escaped'
+    except BaseException as e:  # noqa: BLE001
+        return f'{type(e).__name__} escaped'
+
+
+def source_kind_oracle(ck: Ck) -> None:
+    from srctools.tokenizer import Tokenizer
+    try:
+        Tokenizer(b'"bytes"')
+        r0 = 'Tokenizer(bytes) accepted'
+    except TypeError:
+        r0 = None
+    except BaseException as e:  # noqa: BLE001
+        r0 = f'Tokenizer(bytes) raised {type(e).__name__}'
+    ck.count('oracle_source_kinds')
+    if r0:
+        ck.violation('bad-source:bytes-data', r0, {'kind': 'badsource', 'prefix': '', 'item': 'bytes-data', 'cut': False, 'bits': 6, 'kv': False})
+    done: set[str] = set()
+    for prefix in SOURCE_PREFIXES:
+        for item in BAD_ITEMS:
+            for cut in (False, True):
+                for bits in (6, 127, 2):
+                    for via_kv in (False, True):
+                        ck.count('oracle_source_kinds')
+                        r = source_kind_case(prefix, item, cut, bits, via_kv)
+                        if prefix and cut:
+                            ck.seen(('src', prefix, item, bits, via_kv))
+                        if r is None:
+                            continue
+                        key = f'bad-source:{item}:{"kvparse:" if via_kv else ""}{r.split(" ")[0]}'
+                        if key in done:
+                            continue
+                        done.add(key)
+                        ck.violation(key, f'chunk source delivering {prefix!r}{" one character per chunk" if cut else ""} and then {item}: {r}',
+                                     {'kind': 'badsource', 'prefix': prefix, 'item': item, 'cut': cut, 'bits': bits, 'kv': via_kv})
+    ck.hist('oracle', 'chunk sources that misbehave after a prefix (bytes / non-str chunk, UnicodeDecodeError, RuntimeError) x 12 prefixes x whole / per character x 3 option vectors x Tokenizer / Keyvalues.parse', len(SOURCE_PREFIXES) * len(BAD_ITEMS) * 12)
 
 
 # ------------------------------------------------------------------------------------------------ main
@@ -1566,12 +1688,16 @@ def _run(ck: Ck) -> None:
     if not ok_h:
         ck.gen('HsRows_gen', c02_hstring.EMPTY_GEN, {'failed_closed': True})
     ok_g = U.translate_get_token_trees(ck)      # _get_token / _handle_comment as decision trees + the state census
+    ok_n = ck.translate('NextChar_gen', c03_nextchar.translate)      # _next_char as a table over what the chunk iterator can do
+    if not ok_n:
+        ck.gen('NextChar_gen', c03_nextchar.EMPTY_GEN, {'failed_closed': True})
     built = ok_t and ok_k and ok_b and ck.build(['Props/C03.vo', 'Text/TokEnum.vo', 'Text/KvErrGen.vo', 'Text/BaseTokEnum.vo', 'Text/ErrFmtGen.vo',
-                                                 'Text/HsGen.vo', 'Text/GtGen.vo'])
+                                                 'Text/HsGen.vo', 'Text/GtGen.vo', 'Text/NextCharGen.vo'])
     if built:
         started = start_exhaustive_model(ck)
         th = U.theorems_in_background(ck, 'Props/C03.v')
-        U.instance_obligations_parallel(ck, [(U.IMPORTS + ['SV.Text.TokenizerProofs'], {
+        gt_group = U.get_token_tree_group(ok_g, hs_rows=ok_h, next_char=ok_n)
+        inst_res = U.instance_obligations_parallel(ck, ([gt_group] if gt_group else []) + [(U.IMPORTS + ['SV.Text.TokenizerProofs'], {
             'EOF_is_not_an_operator_token': 'ops_no_eof gen_tables',
             'token_enum_values_distinct': 'token_values_distinct',
             'operators_name_known_tokens': 'operators_all_known',
@@ -1609,7 +1735,7 @@ def _run(ck: Ck) -> None:
             'error_formats_str_messages_exactly_when_arguments_are_given': 'gen_error_str_form_ok',
             'error_refuses_a_token_with_two_values': 'gen_error_two_values_refused',
         }, 'efinst')]))
-        U.get_token_tree_obligations(ck, ok_g, hs_rows=ok_h)
+        U.get_token_tree_obligations(ck, ok_g, hs_rows=ok_h, res={k: v for k, v in inst_res.items() if gt_group and k in gt_group[1]})
         _stage(ck, 'translate+build+theorems+instances')
         corr_exhaustive(ck, escalate, started)
         _stage(ck, 'corr_exhaustive')
@@ -1658,6 +1784,20 @@ def replay(data: dict) -> int:
             print(key, '::', what)
         print('VIOLATED' if fake.violations else 'property holds on this input')
         return 1 if fake.violations else 0
+    if r.get('kind') == 'badsource':
+        if r['item'] == 'bytes-data':
+            from srctools.tokenizer import Tokenizer as _T
+            try:
+                _T(b'"bytes"')
+                res = 'Tokenizer(bytes) accepted'
+            except TypeError:
+                res = None
+        else:
+            res = source_kind_case(r['prefix'], r['item'], r['cut'], r['bits'], r['kv'])
+        print(f'chunk source: {r["prefix"]!r} ({"one character per chunk" if r["cut"] else "one chunk"}), then {r["item"]}; options {U.opts_of_bits(r["bits"])}; '
+              f'{"Keyvalues.parse" if r["kv"] else "Tokenizer"}\n -> {res}')
+        print('VIOLATED' if res else 'property holds on this input')
+        return 1 if res else 0
     if r.get('kind') == 'errtext':
         from srctools.tokenizer import Token, Tokenizer, TokenSyntaxError
         tk = Tokenizer('', r.get('file'))
